@@ -439,6 +439,14 @@ class PVLEncoder(object):
         """Returns a ``str`` formatted as a PVL Time based
         on the *value* object according to the rules of this encoder.
         """
+        if value.utcoffset() not in (None, datetime.timedelta(0)):
+            # There is no time zone offset in this syntax, and an
+            # unmarked time is read as UTC.
+            raise ValueError(
+                f"This encoder cannot write a time zone offset, and this "
+                f"time is not UTC: {value}"
+            )
+
         s = f"{value:%H:%M}"
 
         if value.microsecond:
@@ -791,7 +799,7 @@ class ODLEncoder(PVLEncoder):
                 f"have a timezone offset: {value}"
             )
 
-        t = super().encode_time(value)
+        t = super().encode_time(value.replace(tzinfo=None))
 
         if value.utcoffset() == datetime.timedelta():
             return t + "Z"
